@@ -21,7 +21,9 @@ META = {
             "upsert_account, update/delete_*_metadata, revert_transaction, the four history triggers) over the combinators of Model/Store/Sql.lean; "
             "Lean theorems evaluate that generated projection in the kernel: projection_refines_replay_partial_small_scope (all 316 histories of "
             "<= 2 entries over a small alphabet: every difference from replay lies at an (account, asset) with one of two named shapes, no row of "
-            "another ledger is touched), projection_refines_replay_partial_example, and the refutations projection_effective_volumes_null "
+            "another ledger is touched), projection_refines_replay_partial_example; three UNBOUNDED theorems about generated functions (every database state): "
+            "revert_sets_reverted_at_exactly, metadata_updates_keep_reverted_at, projection_frame_partial (revert_transaction / update_ / "
+            "delete_transaction_metadata and the revision trigger never touch another ledger's rows); and the refutations projection_effective_volumes_null "
             "(design 6 #24), projection_self_posting_breaks_volumes (new), projection_timestamp_offset_dropped (#25), "
             "get_account_balance_before_witness (#22, latent); the same comparison runs executably on every generated history of the run and on "
             "an exhaustive enumeration to depth 3 (quick) / 4 (thorough).  The full projection_refines_replay (induction over arbitrary log "
@@ -587,7 +589,8 @@ def run(ctx):
         "2e translation": "regenerated on every run (extract/plpgsql -> Generated/Schema.lean); a construct outside the grammar stops the check",
         "2f projection vs replay": "kernel-checked on all histories of <= 2 entries + one rich example (partial theorems); executable comparison on the "
                                    "generated histories of the run and on the enumeration to depth 3/4; clauses (i),(ii) REFUTED on two shapes (findings), (iii)-(v) no counterexample; "
-                                   "NO unbounded proof about the generated definitions",
+                                   "unbounded proofs only for revert_transaction / update_transaction_metadata / delete_transaction_metadata + their trigger "
+                                   "(reverted_at written exactly there; frame); the insert path (insert_transaction, insert_posting, insert_move, upsert_account) has NO unbounded proof",
         "2g read functions / read queries": "get_account_balance(_before) transcribed by hand: latent defect witnessed; the Go query builders are NOT modelled "
                                             "(no render/eval model, reads_equal_replay not stated)",
     }
